@@ -19,6 +19,20 @@ pub fn run(args: &Args, rep: &mut Report) {
         w.prequeue = mode;
         let n = args.scale(120, 1500);
         let mut rng = args.rng(salt);
+        // eventless transitions whose guard is changed by targetless transitions / sibling regions
+        for d in 0..args.scale(10, 150) {
+            if crate::report::should_stop() {
+                break;
+            }
+            let (doc, paths) = crate::corpus::guarded_eventless(&mut rng, d);
+            if let Ok(f) = crate::refsim::Flat::from_doc(&doc) {
+                for p in &paths {
+                    if w.run_one(&doc, &f, p, false) {
+                        w.rep.nontrivial_key(&format!("{}:{}", mode, distinct_key(&doc, p)));
+                    }
+                }
+            }
+        }
         for d in 0..n {
             if crate::report::should_stop() {
                 break;
